@@ -15,6 +15,9 @@ type Clause struct {
 }
 
 type LoopContract struct {
+	// Entry: assertions checked once, when the loop is reached (before anything is havocked);
+	// unlike an invariant they are neither assumed in nor required of the body
+	Entry      []Clause
 	Invariants []Clause
 	Decreases  []Clause
 	Modifies   []Clause // extra havoc targets (normally inferred)
@@ -140,7 +143,7 @@ func newContractSet() *ContractSet {
 }
 
 var funcHdrRe = regexp.MustCompile(`^(assume\s+)?func\s+(.+?)\s*$`)
-var loopRe = regexp.MustCompile(`^loop\[(\d+)\]\s+(invariant|decreases|modifies)\s+(.*)$`)
+var loopRe = regexp.MustCompile(`^loop\[(\d+)\]\s+(invariant|decreases|modifies|entry)\s+(.*)$`)
 var labelRe = regexp.MustCompile(`^\[([A-Za-z0-9_.:-]+)\]\s*(.*)$`)
 var ghostAtRe = regexp.MustCompile(`^ghost\s+at\s+(entry|return|call\[(\d+|\*)\]\s+(\S+)\s+(before|after))\s*:\s*\$([A-Za-z0-9_]+)\s*=\s*(.*)$`)
 var retSpecRe = regexp.MustCompile(`^at\s+return\[(\d+|\*)\]\s+assert\s+(.*)$`)
@@ -479,6 +482,12 @@ func parseClause(fc *FuncContract, s, src string, resolve func(string) string) e
 					return err
 				}
 				lc.Invariants = append(lc.Invariants, c)
+			case "entry":
+				c, err := mk(strings.TrimSpace(strings.TrimPrefix(strings.TrimSpace(m[3]), "assert")))
+				if err != nil {
+					return err
+				}
+				lc.Entry = append(lc.Entry, c)
 			case "decreases":
 				c, err := mk(m[3])
 				if err != nil {
